@@ -271,6 +271,9 @@ def overlay(c, seed):
     if o["mode"] == "fix" and o["strategy"] == "override":
         if r < 0.45:
             sc["layout"] = rng.choice(["profile-mgmt", "profile-mgmt-active", "profile-props", "profile-mgmt"])
+        elif r < 0.75 and r >= 0.6 and sc["eco"] == "Maven" and all(m["group"] in ("", "dev") for m in sc["manifest"]):
+            # the requirements are declared in a local parent pom
+            sc["layout"] = "local-parent"
         elif r < 0.6 and sc["eco"] == "Maven":
             # a vulnerable package that is not a direct requirement is managed (at its lowest version) in an
             # activeByDefault profile whose dependencyManagement takes the version from a property of that profile
